@@ -25,6 +25,8 @@
         IndexSelect32 / IndexSelect32R64) for every index of the walk ([WalkSelect]):
         [walk; [[a,b]..] of Select32; [[a,b]..] of Select32R64]; spec = [ones; pairs; pairs], pairs = the k-th and
         (k+1)-th 1-bit (64*len after the last).
+    [bitmap.Slice/walk] [segs; from; to]: r := Slice(bm, from, to), then the NextOne walk and the PrevOne walk of the
+        whole of r ([SliceWalk]); spec = [the 1-bits of [from, to) minus from; the same reversed].
     [bitmap.NextOne/any] [bitmap.PrevOne/any] [segs; i; e]: ANY int32 [i], [e] (outside the property's domain
         too); model = int32 model, spec = Spec/NextTotalSpec.v (exact panic sets).  DIAGNOSTIC ONLY: no
         generator of ./check C13 emits these (behaviour outside the stated domain is not compared by the
@@ -219,5 +221,13 @@ Definition ops_C13_wide : list opdef := [
        | [ps; opt] => match as_zs ps with
            | Some ps => VL [vzs ps; vzs (rev ps)]
            | None => VBad end
-       | _ => VBad end) |}
+       | _ => VBad end) |};
+  {| op_name := "bitmap.Slice/walk";
+     op_run := fun a => with_bm_i_e a iter_dom
+                          (fun bm i e => match SliceWalk bm i e with
+                                         | Some (x, y) => VL [vzs x; vzs y]
+                                         | None => VPanic
+                                         end);
+     op_spec := fun_spec (fun a => with_bm_i_e a iter_dom
+                          (fun bm i e => let l := map (fun p => p - i) (ones_in bm i e) in VL [vzs l; vzs (rev l)])) |}
 ].
